@@ -31,6 +31,54 @@ func runC02(c *Ctx) {
 	c02R5(c)
 	c02R6(c)
 	c02R7(c)
+	c02R8(c)
+}
+
+// c02R8: flush transactions of one persister never overlap.
+func c02R8(c *Ctx) {
+	r := c.R.Rule("R8", "K3 flush serialisation: Persister.triggerFlush starts the next flush (go flushNow, publication of the new generation) only after an unconditional wait for the previous generation's writeDone, or when there is no previous generation", 2)
+	fn := c.SSA(r, pConn, "(*Persister).triggerFlush")
+	flushNow := c.Fn(r, pConn, "(*Persister).flushNow")
+	flushF := c.Field(r, pConn, "Persister", "flush")
+	wdF := c.Field(r, pConn, "flushState", "writeDone")
+	if fn == nil || flushNow == nil || flushF == nil || wdF == nil {
+		return
+	}
+	g := kit.NewGates()
+	for _, b := range fn.Blocks {
+		for _, in := range b.Instrs {
+			switch x := in.(type) {
+			case *ssa.UnOp:
+				// a plain (blocking, unconditional) receive from the previous generation's writeDone
+				if x.Op == token.ARROW && kit.IsFieldLoad(x.X, wdF) {
+					g.AddInstr(x, "<-p.flush.writeDone")
+				}
+			case *ssa.Select:
+				// a select counts only when writeDone is its sole way out
+				if x.Blocking && len(x.States) == 1 && x.States[0].Dir == types.RecvOnly && kit.IsFieldLoad(x.States[0].Chan, wdF) {
+					g.AddInstr(x, "select { case <-p.flush.writeDone }")
+				}
+			}
+		}
+	}
+	for _, l := range kit.FieldLoads(fn, flushF) {
+		g.AddEdges(kit.NilEdges(l, true), "p.flush == nil")
+	}
+	var starts []ssa.Instruction
+	for _, b := range fn.Blocks {
+		for _, in := range b.Instrs {
+			if gi, ok := in.(*ssa.Go); ok && kit.CalleeOf(&gi.Call) == flushNow {
+				starts = append(starts, in)
+			}
+		}
+	}
+	for _, st := range kit.FieldStores(fn, flushF) {
+		starts = append(starts, st)
+	}
+	if len(starts) < 2 {
+		c.R.Fail(r, "triggerFlush: start of the next flush", c.Pos(fn.Pos()), "expected `go p.flushNow(...)` and the publication p.flush = st")
+	}
+	c.Dominated(r, "triggerFlush: next flush only after the previous one wrote", starts, g, "the unconditional receive from the previous generation's writeDone (or the p.flush == nil edge)")
 }
 
 func c02R1(c *Ctx) {
@@ -258,44 +306,39 @@ func c02R4(c *Ctx) {
 		c.R.Unresolved(r, "database.Transaction.Commit")
 		return
 	}
-	// the cell read by the callback closure: argument of the PersistCallback call inside a literal
-	var cell ssa.Value
-	for _, lit := range kit.WithAnon(fn)[1:] {
-		for _, b := range lit.Blocks {
-			for _, in := range b.Instrs {
-				call, ok := in.(*ssa.Call)
-				if !ok || call.Call.IsInvoke() || len(call.Call.Args) != 1 {
-					continue
-				}
-				if !isErrorType(call.Call.Args[0].Type()) {
-					continue
-				}
-				if n, ok := call.Call.Value.Type().(*types.Named); !ok || n.Obj().Name() != "PersistCallback" {
-					continue
-				}
-				arg := call.Call.Args[0]
-				if u, ok := arg.(*ssa.UnOp); ok && u.Op == token.MUL {
-					if fv, ok := u.X.(*ssa.FreeVar); ok {
-						cell = resolveFreeVar(fv)
+	// sink: an invocation cb(x) of a PersistCallback-typed function value — wherever it happens
+	// (a literal of flushNow, or a helper flushNow hands the error to)
+	isCb := func(cc *ssa.CallCommon) bool {
+		if cc.IsInvoke() {
+			return false
+		}
+		n, ok := cc.Value.Type().(*types.Named)
+		return ok && n.Obj().Name() == "PersistCallback"
+	}
+	sink := func(in ssa.Instruction, x ssa.Value) bool {
+		ci, ok := in.(ssa.CallInstruction)
+		if !ok || !isCb(ci.Common()) {
+			return false
+		}
+		a := ci.Common().Args
+		return len(a) == 1 && a[0] == x
+	}
+	reaches := func(v ssa.Value) bool { return kit.FlowsTo(v, sink) }
+	// reachesVar: v is (a load of) the variable whose value the callbacks receive
+	reachesVar := func(v ssa.Value) bool {
+		if reaches(v) {
+			return true
+		}
+		if u, ok := v.(*ssa.UnOp); ok && u.Op == token.MUL {
+			if a, ok := u.X.(*ssa.Alloc); ok {
+				for _, cu := range kit.CellUses(a) {
+					if l, ok := cu.Instr.(*ssa.UnOp); ok && l.Op == token.MUL && l != u && reaches(l) {
+						return true
 					}
-				} else if fv, ok := arg.(*ssa.FreeVar); ok {
-					cell = resolveFreeVar(fv)
 				}
 			}
 		}
-	}
-	if cell == nil {
-		c.R.Fail(r, "flushNow: callback error argument", c.Pos(fn.Pos()), "cannot find the value the persist callbacks are invoked with")
-		return
-	}
-	reaches := func(v ssa.Value) bool {
-		if v == cell {
-			return true
-		}
-		return kit.FlowsTo(v, func(in ssa.Instruction, x ssa.Value) bool {
-			st, ok := in.(*ssa.Store)
-			return ok && st.Addr == cell && st.Val == x
-		})
+		return false
 	}
 	// commit result
 	commits := kit.CallsTo(fn, Set(commit))
@@ -317,32 +360,61 @@ func c02R4(c *Ctx) {
 		c.R.Check(e != nil && reaches(e), r, "flushNow: store-write error reaches the callbacks", c.Pos(call.Pos()), "a failed store write is reported to the callbacks",
 			"the error of data.storeFunc(ctx) is only logged: it never flows into the error the persist callbacks receive, so a failed store write is followed by Commit and a nil callback — the plugin is acked for a position that was never stored", true)
 	}
-	// callbacks start after the commit call, or on an edge where the error cell is already non-nil
+	// callbacks start after the commit call, or on an edge where the error the callbacks receive is already non-nil
 	g := kit.NewGates()
 	for _, cm := range commits {
 		g.AddInstr(cm, "tx.Commit()")
 	}
-	if a, ok := cell.(*ssa.Alloc); ok {
-		if refs := a.Referrers(); refs != nil {
-			for _, ref := range *refs {
-				if u, ok := ref.(*ssa.UnOp); ok && u.Op == token.MUL {
-					g.AddEdges(kit.NilEdges(u, false), "err!=nil (commit skipped)")
+	for _, b := range fn.Blocks {
+		for _, in := range b.Instrs {
+			v, ok := in.(ssa.Value)
+			if !ok || !isErrorType(v.Type()) {
+				continue
+			}
+			if es := kit.NilEdges(v, false); len(es) > 0 && reachesVar(v) {
+				g.AddEdges(es, "err!=nil (commit skipped)")
+			}
+		}
+	}
+	// where flushNow starts the callbacks: a goroutine invoking a PersistCallback, or a call to a
+	// helper that does (bounded depth)
+	var invokes func(f *ssa.Function, depth int) bool
+	invokes = func(f *ssa.Function, depth int) bool {
+		for _, ff := range kit.WithAnon(f) {
+			for _, b := range ff.Blocks {
+				for _, in := range b.Instrs {
+					ci, ok := in.(ssa.CallInstruction)
+					if !ok {
+						continue
+					}
+					if isCb(ci.Common()) {
+						return true
+					}
+					if callee := ci.Common().StaticCallee(); callee != nil && depth > 0 && callee.Pkg == fn.Pkg && callee != f && len(callee.Blocks) > 0 {
+						if invokes(callee, depth-1) {
+							return true
+						}
+					}
 				}
 			}
 		}
+		return false
 	}
 	var gos []ssa.Instruction
 	for _, b := range fn.Blocks {
 		for _, in := range b.Instrs {
-			if g2, ok := in.(*ssa.Go); ok {
-				if mc, ok := g2.Call.Value.(*ssa.MakeClosure); ok {
-					// the callback-invoking literal takes a PersistCallback argument
-					for _, a := range g2.Call.Args {
-						if n, ok := a.Type().(*types.Named); ok && n.Obj().Name() == "PersistCallback" {
-							gos = append(gos, in)
-						}
-					}
-					_ = mc
+			ci, ok := in.(ssa.CallInstruction)
+			if !ok {
+				continue
+			}
+			switch f := ci.Common().Value.(type) {
+			case *ssa.MakeClosure:
+				if invokes(f.Fn.(*ssa.Function), 1) {
+					gos = append(gos, in)
+				}
+			case *ssa.Function:
+				if f.Pkg == fn.Pkg && len(f.Blocks) > 0 && invokes(f, 2) {
+					gos = append(gos, in)
 				}
 			}
 		}
@@ -526,17 +598,7 @@ func c02R6(c *Ctx) {
 		// an empty element never reaches return nil: from the len(p)!=0 false edge
 		bad := false
 		cnt := 0
-		for _, e := range kit.CmpEdges(v, func(b *ssa.BinOp) (bool, bool) {
-			if kit.IsLenOf(b.X, nil) && kit.IsIntConst(b.Y, 0) {
-				switch b.Op {
-				case token.NEQ, token.GTR:
-					return true, false
-				case token.EQL:
-					return true, true
-				}
-			}
-			return false, false
-		}) {
+		for _, e := range kit.LenEdges(v, nil, 0, 0) {
 			cnt++
 			for _, ret := range nilRets {
 				if kit.EdgeReaches(e, ret, nil) {
@@ -556,17 +618,7 @@ func c02R6(c *Ctx) {
 				}
 			}
 		}
-		gEmpty := kit.NewGates().AddEdges(kit.CmpEdges(nm, func(b *ssa.BinOp) (bool, bool) {
-			if kit.IsLenOf(b.X, nil) && kit.IsIntConst(b.Y, 0) {
-				switch b.Op {
-				case token.EQL:
-					return true, false
-				case token.NEQ, token.GTR:
-					return true, true
-				}
-			}
-			return false, false
-		}), "len(p)!=0")
+		gEmpty := kit.NewGates().AddEdges(kit.LenEdges(nm, nil, 1, -1), "len(p)!=0")
 		gDup := kit.NewGates()
 		for _, b := range nm.Blocks {
 			for _, in := range b.Instrs {
